@@ -19,7 +19,7 @@ func init() {
 		Explanation: "Decides the structural causes of races, not their absence in general: R1 effect analysis: over everything reachable from the Transaction API (VTA call graph) no store, map update, delete or append writes memory whose access path goes through a shared object (WAF, Rule, RuleGroup, operator/action/writer/formatter/body-processor structs, package variables), " +
 			"per-transaction copies of rule data are made fresh before being appended to (path query with infeasible-branch pruning), reference-typed transaction fields that alias WAF storage are never written through, and the lazy audit-writer initialisation is dead for WAFs built by coraza.NewWAF; " +
 			"R2 guarded-by table: every access to the process-wide tables (memoize entries, random source, transformation-id tables, concurrent audit index) happens with the associated lock held, writes exclusively; R3 no lock is acquired while another module lock is held (lock-order graph has no edge, hence no cycle); " +
-			"R4 the transaction pool is only used by newTransaction (Get) and Close (deferred Put).",
+			"R4 the transaction pool is only used by newTransaction (Get) and Close (deferred Put); R5 a value derived from an object by appending to one of its slices (a logger with more context, an event, a copied list) never grows into the parent's spare capacity: the source is clipped or cloned first.",
 		NotDecided: []string{
 			"absence of data races in general (needs a happens-before argument over schedules)",
 			"deadlock freedom beyond the module's own locks",
@@ -505,4 +505,140 @@ func c06Pool(c *an.Ctx) {
 	sort.Strings(sites)
 	want := "Get in internal/corazawaf.(*WAF).newTransaction; Put in internal/corazawaf.(*Transaction).Close"
 	c.Check(strings.Join(sites, "; ") == want, "R4", "transaction pool used only by newTransaction and Close", token.NoPos, want, "txPool call sites: "+strings.Join(sites, "; "))
+
+	// ---- R5 derived objects do not grow into their parent's spare capacity.
+	c06DerivedAppends(c)
 }
+
+// c06DerivedAppends: `append(x.f, ...)` whose result goes anywhere but back into x.f builds a *new* object
+// (a derived logger, a copy of a rule's list, an event) out of a slice that x keeps using.  If x.f has spare
+// capacity, the append writes into memory x still owns: two goroutines deriving from the same x race, and
+// sequential derivations overwrite each other.  The slice must be clipped (x.f[:len:len], slices.Clip) or
+// copied first.  Handing out x.f itself to an object that appends to it later is the same hazard.
+func c06DerivedAppends(c *an.Ctx) {
+	n := 0
+	seen := map[string]int{}
+	clipped := func(v ssa.Value) bool {
+		switch x := v.(type) {
+		case *ssa.Slice:
+			return x.Max != nil
+		case *ssa.Call:
+			if sc := x.Call.StaticCallee(); sc != nil {
+				o := sc
+				if sc.Origin() != nil {
+					o = sc.Origin()
+				}
+				if o.Pkg != nil && o.Pkg.Pkg.Path() == "slices" && (o.Name() == "Clip" || o.Name() == "Clone") {
+					return true
+				}
+			}
+		}
+		return false
+	}
+	for _, fn := range c.P.ModFuncs {
+		rp := relPkg(fn)
+		if strings.HasPrefix(rp, "testing") || strings.HasPrefix(rp, "examples") || strings.HasSuffix(rp, "/generator") || rp == "magefiles" {
+			continue
+		}
+		an.Instrs(fn, func(in ssa.Instruction) {
+			if !an.IsBuiltinCall(in, "append") {
+				return
+			}
+			call := in.(*ssa.Call)
+			src := call.Call.Args[0]
+			// peel clipping / cloning / re-slicing to find where the slice comes from
+			isClipped := false
+			for d := 0; d < 4; d++ {
+				if clipped(src) {
+					isClipped = true
+				}
+				if sl, ok := src.(*ssa.Slice); ok {
+					src = sl.X
+					continue
+				}
+				if cl, ok := src.(*ssa.Call); ok && clipped(cl) && len(cl.Call.Args) == 1 {
+					src = cl.Call.Args[0]
+					continue
+				}
+				break
+			}
+			// the slice comes from a field of a parameter / receiver (by value or by pointer)
+			ld, ok := src.(*ssa.UnOp)
+			var fv *types.Var
+			var holder ssa.Value
+			if ok && ld.Op == token.MUL {
+				if fa, ok := ld.X.(*ssa.FieldAddr); ok {
+					fv, holder = an.FieldVar(fa), fa.X
+				}
+			} else if f, ok := src.(*ssa.Field); ok {
+				if st, ok := f.X.Type().Underlying().(*types.Struct); ok {
+					fv, holder = st.Field(f.Field), f.X
+				}
+			}
+			if fv == nil {
+				return
+			}
+			// holder must be a parameter (possibly spilled by-value receiver)
+			isParam := false
+			switch h := holder.(type) {
+			case *ssa.Parameter:
+				isParam = true
+			case *ssa.Alloc:
+				for _, r := range *h.Referrers() {
+					if st, ok := r.(*ssa.Store); ok && st.Addr == ssa.Value(h) {
+						if _, isP := st.Val.(*ssa.Parameter); isP {
+							isParam = true
+						}
+					}
+				}
+			case *ssa.UnOp:
+				if _, isP := h.X.(*ssa.Parameter); isP {
+					isParam = true
+				}
+			}
+			if !isParam {
+				return
+			}
+			// result stored back into the same field: in-place growth of the owner's state
+			back := false
+			var walk func(v ssa.Value, d int)
+			walk = func(v ssa.Value, d int) {
+				if d > 3 || v.Referrers() == nil {
+					return
+				}
+				for _, r := range *v.Referrers() {
+					switch x := r.(type) {
+					case *ssa.Store:
+						if fa2, ok := x.Addr.(*ssa.FieldAddr); ok && an.FieldVar(fa2) == fv && an.Expr(fa2.X) == an.Expr(holder) {
+							back = true
+						}
+					case *ssa.Phi:
+						walk(x, d+1)
+					}
+				}
+			}
+			walk(call, 0)
+			if back {
+				return
+			}
+			n++
+			c.FuncsAnalysed[fn] = true
+			k := fmt.Sprintf("append to %s.%s builds a new value in %s", fv.Pkg().Name(), fv.Name(), an.RelName(fn))
+			seen[k]++
+			key := k
+			if seen[k] > 1 {
+				key += fmt.Sprintf("#%d", seen[k])
+			}
+			if why, ok := c06DerivedAllow[k]; ok {
+				c.Note("R5", key, in.Pos(), "not decided mechanically; manual argument: "+why)
+				return
+			}
+			c.Check(isClipped, "R5", key, in.Pos(), "the source slice is clipped/cloned first",
+				"append("+tempName.ReplaceAllString(an.Expr(src), "")+", ...) builds a new value from a slice its owner keeps: when that slice has spare capacity the append writes into memory the owner (and every other value derived from it) still uses — concurrent derivations race, sequential ones overwrite each other")
+		})
+	}
+	c.MinCount("R5", "appends deriving a new value from an owner's slice", n, 1)
+}
+
+var c06DerivedAllow = map[string]string{}
+
